@@ -46,6 +46,13 @@ example : (reach poscDb exG exOps3).results = [some 0, some 1, some 2] ∧
 example : (reach poscDb exG exOps4).results = [some 0, none] ∧ (reach poscDb exG exOps4).st.cache.length = 1 ∧
     (stepState poscDb exG (reach poscDb exG [exGoodOp]) exBadOp).2 = .err .units := by decide +kernel
 
+-- a repeated __init__ on the derived m2 and on the simple m: same objects, two objects and two cache
+-- entries in all, m2 still (length: m, 2), m * m still resolves to it
+example : (reach poscDb exG exOps5).results = [some 0, some 1, some 1, some 1, some 1, some 0] ∧
+    (reach poscDb exG exOps5).st.objs.length = 2 ∧ (reach poscDb exG exOps5).st.cache.length = 2 ∧
+    ((reach poscDb exG exOps5).st.objs[1]?.map (view (reach poscDb exG exOps5).st.heap)) =
+      some (some [(sLength, ⟨sM, 2, false⟩)], 0, true) := by decide +kernel
+
 end examples
 
 end Barril.Intern
